@@ -123,6 +123,7 @@ var functionEnvKeys = []starlark.String{
 	"global values",
 	"default parameter values",
 	"free variables",
+	"parameters",
 	"code",
 }
 
@@ -337,7 +338,8 @@ func newEnvPickler() pickle.PicklerFunc {
 //
 // - Builtins are pickled as (NEWOBJ "dawn" "Builtin" (name, receiver)), where receiver is None
 //   unless the builtin is a bound method
-// - Function code is pickled as (NEWOBJ "dawn" "FunctionCode" (module, globals, bytecode))
+// - Function code is pickled as (NEWOBJ "dawn" "FunctionCode" (module, globals, bytecode, signature)),
+//   where signature is (parameter names, number of keyword-only parameters, has *args, has **kwargs)
 // - Functions are pickled as (NEWOBJ "dawn" "Function" (defaults, freevars, code)).
 // - The placeholder default of a required keyword-only parameter is pickled as (NEWOBJ "dawn" "Mandatory" ()).
 func envPickler(x starlark.Value) (module, name string, args starlark.Tuple, err error) {
@@ -352,7 +354,13 @@ func envPickler(x starlark.Value) (module, name string, args starlark.Tuple, err
 		return "dawn", "Builtin", starlark.Tuple{starlark.String(x.Name()), receiver}, nil
 	case *starlark.FunctionCode:
 		module, globals := x.ModuleEnv()
-		return "dawn", "FunctionCode", starlark.Tuple{module, globals, starlark.Bytes(x.Bytecode())}, nil
+		params := make(starlark.Tuple, x.NumParams())
+		for i := range params {
+			name, _ := x.Param(i)
+			params[i] = starlark.String(name)
+		}
+		signature := starlark.Tuple{params, starlark.MakeInt(x.NumKwonlyParams()), starlark.Bool(x.HasVarargs()), starlark.Bool(x.HasKwargs())}
+		return "dawn", "FunctionCode", starlark.Tuple{module, globals, starlark.Bytes(x.Bytecode()), signature}, nil
 	case *starlark.Function:
 		defaults, freevars := x.Env()
 		return "dawn", "Function", starlark.Tuple{defaults, freevars, x.Code()}, nil
@@ -370,8 +378,8 @@ func envPickler(x starlark.Value) (module, name string, args starlark.Tuple, err
 //
 //   - Builtins are unpickled from (NEWOBJ "dawn" "Builtin" (name, receiver)) into (name, receiver).
 //     Environments recorded by earlier versions hold (NEWOBJ "dawn" "Builtin" ()).
-//   - Function code is unpickled from (NEWOBJ "dawn" "FunctionCode" (module, globals, bytecode))
-//     into a dictionary.
+//   - Function code is unpickled from (NEWOBJ "dawn" "FunctionCode" (module, globals, bytecode, signature))
+//     into a dictionary. Environments recorded by earlier versions have no signature.
 //   - Functions are unpickled from (NEWOBJ "dawn" "Function" (defaults, freevars, code))
 //     into a dictionary.
 //   - References from a function or function code to itself are unpickled from
@@ -405,8 +413,8 @@ func envUnpickler(module, name string, args starlark.Tuple) (starlark.Value, err
 		}
 		return starlark.String("mandatory parameter"), nil
 	case "FunctionCode":
-		if len(args) != 3 {
-			return nil, fmt.Errorf("expcted 3 args, got %v", len(args))
+		if len(args) != 3 && len(args) != 4 {
+			return nil, fmt.Errorf("expected 3 or 4 args, got %v", len(args))
 		}
 		module, globals, bytecode := args[0].(starlark.Tuple), args[1], args[2]
 		names, constants, predeclared, universals, functions := module[0], module[1], module[2], module[3], module[4]
@@ -419,6 +427,9 @@ func envUnpickler(module, name string, args starlark.Tuple) (starlark.Value, err
 		dict.SetKey(starlark.String("function values"), functions)
 		dict.SetKey(starlark.String("global values"), makeDictFromAssociationList(globals))
 		dict.SetKey(starlark.String("code"), bytecode)
+		if len(args) == 4 {
+			dict.SetKey(starlark.String("parameters"), args[3])
+		}
 		return dict, nil
 	case "Function":
 		if len(args) != 3 {
